@@ -146,7 +146,10 @@ def H_fault_file(ctx, cfg):
     reader = fa.FileAccessor("/mfs/ds", flat=not cfg["flat"], gzip=cfg["gzip"])
     for cc, pl in ((CH[0], p0), (CH[1], p1)):
         if cc == CH[1] and cfg["op"] == "store_chunk_over":
-            continue
+            # the chunk being replaced: its old content must survive a failure that happens before the
+            # file is (re)opened for writing
+            if not (site and (site[0] == "makedirs" or site[0].startswith(("open:", "gzopen:")))):
+                continue
         try:
             got = reader.fetch_chunk("k0", cc)
         except Exception as exc:
@@ -454,7 +457,8 @@ def replay(cfg, cex):
                 return True, f"fetch_chunk returned {r!r} after a failed {opname}"
             reader = fa.FileAccessor(os.path.join(td, "ds"), flat=cfg["flat"], gzip=cfg["gzip"])
             for cc_, pl in ((CH[0], p0), (CH[1], p1)):
-                if cc_ == CH[1] and cfg["op"] == "store_chunk_over":
+                if cc_ == CH[1] and cfg["op"] == "store_chunk_over" and not (
+                        opname == "makedirs" or opname.startswith(("open:", "gzopen:"))):
                     continue
                 try:
                     if reader.fetch_chunk("k0", cc_) != pl:
